@@ -2,6 +2,9 @@ package main
 
 import (
 	"flag"
+
+	"golang.org/x/tools/go/ssa"
+
 	"fmt"
 	"os"
 	"regexp"
@@ -64,7 +67,7 @@ func cmdRun(args []string) {
 			continue
 		}
 		fn := P.Funcs[k]
-		if len(fn.Blocks) == 0 {
+		if len(fn.Blocks) == 0 || inPlaceClosure(fn) {
 			continue
 		}
 		e := verifyFunction(P, U, fn, nil)
@@ -126,4 +129,42 @@ func cmdRun(args []string) {
 func cmdCheck(args []string) {
 	fmt.Fprintln(os.Stderr, "check: not implemented yet")
 	os.Exit(2)
+}
+
+// inPlaceClosure: an anonymous function that is only called or deferred
+// directly where it is created; it is verified inside its parent.
+func inPlaceClosure(fn *ssa.Function) bool {
+	par := fn.Parent()
+	if par == nil {
+		return false
+	}
+	found := false
+	for _, b := range par.Blocks {
+		for _, in := range b.Instrs {
+			mc, ok := in.(*ssa.MakeClosure)
+			if !ok || mc.Fn != fn {
+				continue
+			}
+			found = true
+			if mc.Referrers() == nil {
+				return false
+			}
+			for _, r := range *mc.Referrers() {
+				switch y := r.(type) {
+				case *ssa.DebugRef:
+				case *ssa.Call:
+					if y.Call.Value != mc {
+						return false
+					}
+				case *ssa.Defer:
+					if y.Call.Value != mc {
+						return false
+					}
+				default:
+					return false
+				}
+			}
+		}
+	}
+	return found
 }
